@@ -619,7 +619,9 @@ def on_tuple(instance: Instance, ctx: Context) -> JSONArraySchema:
         if unpack_schema:
             prefix_items.extend(unpack_schema.prefixItems or [])
             min_items += unpack_schema.minItems or 0
-            max_items += unpack_schema.maxItems or 0
+            if unpack_schema.maxItems:
+                max_items = min_items - (unpack_schema.minItems or 0)
+                max_items += unpack_schema.maxItems
             if unpack_idx == len(args):
                 items = unpack_schema.items
         else:
